@@ -78,16 +78,14 @@ Definition current_layer (l : layout) : N :=
 
 Definition active_held_layers (l : layout) : list N := filter_map st_layer (rev (states l)).
 
-(* trans_resolution_layer_order; `collect::<LayerStack>()` panics beyond MAX_ACTIVE_LAYERS *)
+(* trans_resolution_layer_order *)
 Definition trans_order (cfg : lcfg) (l : layout) : outcome (list N) :=
   let cur := current_layer l in
   if trans_v2 cfg then
-    let held := active_held_layers l in
-    if Nat.ltb MAX_ACTIVE_LAYERS (length held) then Panic "Vec::from_iter overflow (LayerStack)"
-    else
-      let v := fst (sat_push_back MAX_ACTIVE_LAYERS (default_layer l) held) in
-      if delegate_first cfg && negb (cur =? 0) && negb (default_layer l =? 0)
-      then Ok (fst (sat_push_back MAX_ACTIVE_LAYERS 0 v)) else Ok v
+    let held := firstn MAX_ACTIVE_LAYERS (active_held_layers l) in    (* .take(MAX_ACTIVE_LAYERS) *)
+    let v := fst (sat_push_back MAX_ACTIVE_LAYERS (default_layer l) held) in
+    if delegate_first cfg && negb (cur =? 0) && negb (default_layer l =? 0)
+    then Ok (fst (sat_push_back MAX_ACTIVE_LAYERS 0 v)) else Ok v
   else
     if delegate_first cfg && negb (cur =? 0) then Ok [cur; 0] else Ok [cur].
 
@@ -480,6 +478,16 @@ Definition mk_waiting (c : coord) (timeout delay : N) (hold tap tac : action) (c
 Definition new_seq (evs : list seq_ev) : seq_state :=
   {| ss_cur := None; ss_delay := 0; ss_tapped := None; ss_remaining := evs |}.
 
+(* release_evicted_sequence: a sequence pushed out of the full ring releases what it still had to release *)
+Definition release_evicted (s : seq_state) (l : layout) : layout :=
+  let l := match ss_tapped s with Some kc => set_states (seq_release kc (states l)) l | None => l end in
+  fold_left (fun l ev => match ev with SRelease kc => set_states (seq_release kc (states l)) l | _ => l end)
+            (ss_remaining s) l.
+Definition push_sequence (s : seq_state) (l : layout) : layout :=
+  let '(q, ev) := wdeque_push_back ACTIVE_SEQ_CAP s (active_sequences l) in
+  let l := set_active_sequences q l in
+  match ev with Some old => release_evicted old l | None => l end.
+
 Definition get_waiting (l : layout) (idx : Z) : option waiting :=
   if (idx <? 0)%Z then waiting_ l else nth_error (extra_waiting l) (Z.to_nat idx).
 Definition remove_waiting (l : layout) (idx : Z) : layout :=
@@ -736,10 +744,10 @@ Section Body.
       '(l, cu) <- doact_list l acs c delay is_oneshot ls CNone ;;
       Ok (set_rpt action l, cu)
     | Sequence evs =>
-      let l := set_active_sequences (fst (wdeque_push_back ACTIVE_SEQ_CAP (new_seq evs) (active_sequences l))) l in
+      let l := push_sequence (new_seq evs) l in
       Ok (set_rpt action (os_other_unless is_oneshot c l), CNone)
     | RepeatableSequence evs =>
-      let l := set_active_sequences (fst (wdeque_push_back ACTIVE_SEQ_CAP (new_seq evs) (active_sequences l))) l in
+      let l := push_sequence (new_seq evs) l in
       let l := set_states (fst (states_push (RepeatingSequence evs c) (states l))) l in
       Ok (set_rpt action (os_other_unless is_oneshot c l), CNone)
     | CancelSequences =>
